@@ -18,15 +18,43 @@ PROP = "C12"
 INT_DTYPES = ["int8", "int16", "int32", "int64", "uint8", "uint16", "uint32", "uint64"]
 RULE = ("bounded-exhaustive: all id arrays of length<=4 and all edge arrays of length<=3 over alphabet {0,1,2} x directedness; "
         "random id/edge arrays of every integer dtype with values at the dtype limits; a block of 64-bit ids that collide after a float64 detour; radius arrays (1-D/2-D, int/float, masks); "
-        "integer covariance stacks for 1..3 spatial axes, symmetric-biased, singular ones excluded ('clearly inside/outside'); "
+        "integer covariance stacks for 1..3 spatial axes, symmetric-biased; exactly singular ones (diagonal with a 0, zero matrix, rank one v v^T, "
+        "definite/singular blocks, singular indefinite, all negatives; alone, between definite matrices, flagged missing), asymmetric matrices whose eigenvalues are all positive, (n,0,0) stacks without a spatial axis; "
+        "float radii with fractions in (-1,0), -0.0, NaN; "
         "all 2^5 configs x declared/undeclared properties; non-trivial = non-empty input; distinct by structural input")
 EXHAUSTIVE_BLOCKS = ["validate_unique_node_ids: all arrays of length<=4 over {0,1,2}",
                      "validate_data(graph) and the three edge validators: all edge arrays of length<=3 over {0,1,2}^2 x {directed,undirected} x ids in {[0,1,2],[0,1]}"]
 ASSUMPTIONS = [
-    "positive-definiteness is modelled by Sylvester's criterion over exact integers; np.linalg.eigvals / np.allclose are tied only on "
-    "integer matrices with |entries|<=6 and no zero leading minor (clearly inside/outside, as the property says)",
+    "the model decides positive-definiteness by leading principal minors over exact integers (proved equivalent to x^T M x > 0 for all non-zero x "
+    "for sides 1..3: C12_posdef_1/2/3); the oracle decides it by the signs of the characteristic-polynomial coefficients (Faddeev-LeVerrier, exact "
+    "rationals, no minors) and cross-checks with an explicit search for x^T M x <= 0 on the grid [-6,6]^n; np.linalg.eigvals / np.allclose are tied "
+    "only on integer matrices with |entries| <= ~10, side <= 3",
+    "'clearly inside / clearly outside' is read as: positive-definite integer matrices (smallest eigenvalue >= ~1/18^2), matrices with a direction of "
+    "negative x^T M x, asymmetric integer matrices, and exactly singular PSD matrices whose zero eigenvalue LAPACK returns as exactly 0.0 (a zero "
+    "row/column, or the literal list _EXACT_LITERALS of probed rank-one matrices and blocks). EXCLUDED from the tie: non-integer and nearly singular / "
+    "nearly symmetric floats, and every other exactly singular PSD matrix (dense rank-deficient ones, [[2,2],[2,2]]): on those the implementation's "
+    "verdict is the sign of a rounding error (open finding ellipsoid-singular-rounding); they are generated, judged by the oracle, never sent to Coq",
+    "a NaN radius (accepted by the code: not negative) has no counterpart among the model's scaled integers: oracle-only; float radii are multiples "
+    "of 1/4 and reach the model multiplied by 4; masks always have one flag per row (numpy raises IndexError for a boolean mask of another length, "
+    "the model's keep_present truncates instead: never generated)",
     "np.unique / np.isin are modelled by their mathematical meaning (sorted distinct values, membership)",
 ]
+
+# ---- five-flag dispatch (DataVal.v); appended here so that the header above stays as it was
+PARALLEL = True
+RULE += ("; " +
+        "FIVE-FLAG DISPATCH: all 2^5 configs x every declaration state of the sphere / ellipsoid / tracklet / lineage properties (undeclared, declared but absent "
+        "from node_props, stored+valid, stored+invalid; track_node_props None / {} / one key / both keys) on small digraphs (forests with divisions and merges, "
+        "isolated nodes, a cycle now and then, one or two graph faults), REAL missing masks on all four properties with adversarial fill values (an existing "
+        "tracklet / lineage id, a fresh id, a negative radius, a non-PD or non-symmetric matrix), masks only on single-node classes (valid stays valid) / anywhere / "
+        "dropped (fills are read), masks and value arrays of the wrong length; every data case goes to Coq (outcome, exception class AND the raise statement that "
+        "fired), through validate_data and through read_to_memory(store, data_validation=cfg) with the masks stored;")
+EXHAUSTIVE_BLOCKS.append("thorough only: validate_data, all 2^5 configs x all 4x4x(1+6x6) declaration-state combinations of the four properties "
+                         "(one random graph each)")
+ASSUMPTIONS.append(
+    "validate_data: a node whose tracklet / lineage id is flagged missing belongs to no tracklet / lineage but stays in the graph with its edges (docstring of "
+    "_annotated_nodes); the expected verdict is the documented definition on the full graph with such nodes unlabelled; declared-but-absent properties, arrays "
+    "of mismatching lengths and duplicate node ids under the track validators are outside the property text (compared with the model only)")
 
 
 def pairs(alpha):
@@ -81,12 +109,234 @@ def is_sym(M):
     return all(len(r) == n for r in M) and all(M[i][j] == M[j][i] for i in range(n) for j in range(n))
 
 
+# ---- "symmetric and positive-definite" WITHOUT leading principal minors (the model's and the old oracle's method) ----
+# Method (chosen because it shares no step with Sylvester's criterion, which is what GraphVal.pos_def computes):
+#   * elem_sym: the elementary symmetric functions e_1..e_n of the eigenvalues, i.e. the coefficients of
+#     det(tI - M) = t^n - e_1 t^(n-1) + e_2 t^(n-2) - ..., by the Faddeev-LeVerrier recurrence: exact Fractions,
+#     matrix products and traces only -- no determinant, no elimination, no pivot, no minor.  (e_k is the sum of ALL
+#     principal k x k minors, of which the leading one is a single term.)
+#   * a real symmetric matrix has real eigenvalues, so: all eigenvalues > 0 iff e_k > 0 for every k (=>: sums of products
+#     of positives; <=: for s >= 0, (-1)^n p(-s) = s^n + e_1 s^(n-1) + .. + e_n > 0, so no root is <= 0); likewise all
+#     eigenvalues >= 0 iff every e_k >= 0.  This is the criterion the implementation's own eigenvalue test stands for.
+#   * cross-check 1 (definition itself): an explicit search for an integer vector x != 0 with x^T M x <= 0 on a small
+#     grid; a hit for a matrix classified positive-definite is an internal contradiction of the oracle (raises).
+#   * cross-check 2: the leading principal minors (`minors`, kept) must give the same verdict -- an empirical test of
+#     Sylvester's criterion on every generated matrix, not the source of the verdict.
+def elem_sym(M):
+    n = len(M)
+    A = [[Fraction(x) for x in row] for row in M]
+    coeff = [Fraction(0)] * (n + 1)  # det(tI - A) = sum coeff[i] t^i
+    coeff[n] = Fraction(1)
+    Mk = [[Fraction(0)] * n for _ in range(n)]
+    for k in range(1, n + 1):
+        AM = [[sum(A[i][l] * Mk[l][j] for l in range(n)) for j in range(n)] for i in range(n)]
+        Mk = [[AM[i][j] + (coeff[n - k + 1] if i == j else 0) for j in range(n)] for i in range(n)]
+        AMk = [[sum(A[i][l] * Mk[l][j] for l in range(n)) for j in range(n)] for i in range(n)]
+        coeff[n - k] = -sum(AMk[i][i] for i in range(n)) / k
+    return [(-1) ** k * coeff[n - k] for k in range(1, n + 1)]
+
+
+def qform_witness(M, radius=None):
+    """an integer vector x != 0 with x^T M x <= 0 on the grid [-radius, radius]^n, or None"""
+    n = len(M)
+    radius = radius if radius is not None else 6  # 6 finds a witness for every rejected matrix of the generator's ranges
+    for x in itertools.product(range(-radius, radius + 1), repeat=n):
+        if any(x) and sum(x[i] * M[i][j] * x[j] for i in range(n) for j in range(n)) <= 0:
+            return list(x)
+    return None
+
+
+_DEF_CACHE: dict = {}
+ORACLE_STATS = {"matrices_classified": 0, "pd": 0, "singular_psd": 0, "negative_direction": 0,
+                "rejected_with_grid_witness": 0, "rejected_without_grid_witness": 0,
+                "singular_psd_float_exact_cases": 0, "singular_psd_rounding_cases": 0, "singular_psd_rounding_accepted": 0}
+
+
+def definiteness(M):
+    """'pd' | 'singular-psd' | 'neg' (some x with x^T M x < 0) for a SYMMETRIC integer matrix"""
+    key = tuple(tuple(r) for r in M)
+    if key in _DEF_CACHE:
+        return _DEF_CACHE[key]
+    es = elem_sym(M)
+    verdict = "pd" if all(e > 0 for e in es) else ("singular-psd" if all(e >= 0 for e in es) else "neg")
+    w = qform_witness(M)
+    if verdict == "pd" and w is not None:
+        raise AssertionError(f"oracle contradiction: {M} classified positive-definite but x={w} has x^T M x <= 0")
+    if (verdict == "pd") != all(x > 0 for x in minors(M)):
+        raise AssertionError(f"oracle contradiction: characteristic polynomial and leading minors disagree on {M}")
+    ORACLE_STATS["matrices_classified"] += 1
+    ORACLE_STATS[{"pd": "pd", "singular-psd": "singular_psd", "neg": "negative_direction"}[verdict]] += 1
+    if verdict != "pd" and len(M) > 0:
+        ORACLE_STATS["rejected_with_grid_witness" if w is not None else "rejected_without_grid_witness"] += 1
+    _DEF_CACHE[key] = verdict
+    return verdict
+
+
+# Exactly singular positive-SEMI-definite matrices are not positive-definite, so the documented condition rejects them
+# (the repository's own test_pos_def pins this with np.ones((10, 2, 2))).  The implementation tests the floating-point
+# eigenvalues of np.linalg.eigvals (LAPACK geev) against > 0 with no tolerance, so for such a matrix the verdict is the
+# sign of a rounding error unless LAPACK reproduces the zero eigenvalue as exactly 0.0.  Families on which it does
+# (probed member by member on the pinned numpy, design_probes/c12_singular_eigvals.py; demanded at every run):
+#   (a) a zero row/column (the balancing step isolates the index and returns the diagonal entry 0.0 itself): covers
+#       every diagonal matrix with a 0, the zero matrix, a definite block beside a 0 entry;
+#   (b) the literal list below: v v^T for the listed small integer v, and a rank-one 2x2 block beside a positive entry.
+# Every other exactly singular PSD matrix (e.g. [[2,2],[2,2]]: accepted with eigenvalue +4.4e-16, while [[3,3],[3,3]]
+# is rejected with -8.9e-16) is judged under the open finding id=ellipsoid-singular-rounding and is oracle-only.
+_V2 = [v for v in itertools.product((-2, -1, 1, 2), repeat=2)]
+_V3 = [(1, 1, 1), (1, -1, 1), (1, 1, -1), (1, 1, 2), (2, 1, 1), (1, 2, 2), (2, 1, 2), (2, 2, 1), (2, -1, 1), (1, -2, 2), (2, 2, 2)]
+
+
+def outer(v):
+    return [[a * b for b in v] for a in v]
+
+
+def block3(B, p, pos):
+    """3x3: the 2x2 block B on the two indices other than pos, the entry p at (pos, pos)"""
+    rest = [k for k in range(3) if k != pos]
+    M = [[0] * 3 for _ in range(3)]
+    M[pos][pos] = p
+    for a in range(2):
+        for b in range(2):
+            M[rest[a]][rest[b]] = B[a][b]
+    return M
+
+
+_EXACT_LITERALS = {tuple(tuple(r) for r in outer(v)) for v in _V2 + _V3} | {
+    tuple(tuple(r) for r in block3(outer(v), p, pos)) for v in _V2 for p in (1, 2, 5) for pos in range(3)}
+
+
+def float_exact_singular(M):
+    n = len(M)
+    return any(all(M[i][j] == 0 for j in range(n)) for i in range(n)) or tuple(tuple(r) for r in M) in _EXACT_LITERALS
+
+
 def ambiguous(M):
-    """Symmetric matrices on the boundary of the PD cone are outside the claim ('clearly inside or outside')."""
-    return is_sym(M) and any(m == 0 for m in minors(M))
+    """Exactly singular PSD matrices whose zero eigenvalue LAPACK does not reproduce exactly: kept out of the random
+    dispatch stream (the dedicated singular block below generates them, oracle-only, under the open finding)."""
+    return is_sym(M) and len(M) > 0 and definiteness(M) == "singular-psd" and not float_exact_singular(M)
 
 
 # ---------------------------------------------------------------- generation
+RADIUS_SCALE = 4
+
+
+def radius_value(v):
+    """a radius of a case: an int, a float that is a multiple of 1/4, or one of the strings "nan" / "-0.0" (JSON-safe)"""
+    return float(v) if isinstance(v, str) else v
+
+
+def shape_case(axes, sphere=None, ellipsoid=None, cfg=(False, True, True, False, False), n=None):
+    n = n if n is not None else (ellipsoid["shape"][0] if ellipsoid is not None else sphere["shape"][0])
+    return {"kind": "data", "cfg": list(cfg), "directed": True, "dt": "uint8", "ids": list(range(n)),
+            "edges": [[i, i + 1] for i in range(n - 1)], "axes": list(axes), "sphere": sphere, "ellipsoid": ellipsoid, "track": None}
+
+
+def singular_matrices(rng, tier):
+    """(label, matrix): exactly singular symmetric integer matrices, exact in float64, for sides 1, 2, 3"""
+    out = [("zero1", [[0]]), ("zero2", [[0, 0], [0, 0]]), ("zero3", [[0] * 3 for _ in range(3)])]
+    for d in itertools.product((0, 1, 2, 5), repeat=2):
+        if 0 in d and any(d):
+            out.append(("diag2", [[d[0], 0], [0, d[1]]]))
+    for d in itertools.product((0, 1, 2), repeat=3):
+        if 0 in d and any(d):
+            out.append(("diag3", [[d[i] if i == j else 0 for j in range(3)] for i in range(3)]))
+    out += [("rank1-2", outer(v)) for v in _V2] + [("rank1-3", outer(v)) for v in _V3]
+    # rank one with a zero component (zero row/column), side 2 and 3
+    out += [("rank1-zero", outer(v)) for v in ((1, 0), (0, 2), (1, 2, 0), (0, 1, -1), (2, 0, 1), (0, 0, 3))]
+    # one definite block beside a 0 entry, one singular block beside a positive entry, at every position
+    for pos in range(3):
+        for B in ([[2, 1], [1, 2]], [[2, -1], [-1, 1]], [[1, 2], [2, 5]]):
+            out.append(("block-pd+0", block3(B, 0, pos)))
+        for v in ((1, 1), (1, -1), (1, 2), (2, -1), (2, 2)):
+            for p in (1, 2, 5):
+                out.append(("block-sing+pd", block3(outer(v), p, pos)))
+    # singular and indefinite (a zero leading minor AND a negative direction): clearly outside
+    out += [("indef-sing", M) for M in ([[0, 1], [1, 0]], [[0, 2], [2, 3]], [[1, 0, 0], [0, -1, 0], [0, 0, 0]], [[0, 1, 0], [1, 0, 0], [0, 0, 1]],
+                                        [[1, 2, 1], [2, 4, 2], [1, 2, -1]], [[0, 0, 1], [0, 1, 0], [1, 0, 0]], [[1, 1, 0], [1, 1, 1], [0, 1, 1]])]
+    # exactly singular PSD, zero eigenvalue NOT reproduced exactly by LAPACK (open finding; oracle-only)
+    rounding = [[[2, 2], [2, 2]], [[3, 3], [3, 3]], [[5, 5], [5, 5]], [[6, 6], [6, 6]], [[2, -2], [-2, 2]], outer((1, 2, 1)), outer((3, 1, 2)),
+                outer((1, -2, 1)), [[1, -2, 0], [-2, 5, -1], [0, -1, 1]], [[1, -2, -1], [-2, 4, 2], [-1, 2, 3]], [[1, -2, -2], [-2, 5, 4], [-2, 4, 4]],
+                block3([[2, 2], [2, 2]], 1, 0), block3([[2, -2], [-2, 2]], 3, 2)]
+    for _ in range(40 if tier == "quick" else 250):
+        v = [rng.randint(-2, 2) for _ in range(3)]
+        w = [rng.randint(-2, 2) for _ in range(3)]
+        M = [[v[i] * v[j] + w[i] * w[j] for j in range(3)] for i in range(3)]
+        if any(v) or any(w):
+            rounding.append(M)
+    for M in rounding:
+        out.append(("rank-deficient-dense" if ambiguous(M) else "rank-deficient-exact", M))
+    if tier == "quick":  # at most 6 matrices of a family (the literal rounding examples always), all of them in the thorough tier
+        by = {}
+        for lab, M in out:
+            by.setdefault(lab, []).append(M)
+        out = []
+        for lab, Ms in by.items():
+            head = Ms[:10] if lab == "rank-deficient-dense" else []
+            rest = Ms[len(head):]
+            out += [(lab, M) for M in head + (rest if len(rest) <= 6 else rng.sample(rest, 6))]
+    # the negatives: negative semi-definite, a clearly negative eigenvalue
+    out += [(lab + "-neg", [[-x for x in r] for r in M]) for lab, M in list(out) if any(any(r) for r in M)]
+    return out
+
+
+def singular_cases(rng, tier):
+    """finding 23: exactly singular matrices (positive SEMI-definite, so to be rejected: separates `> 0` from `>= 0`), alone,
+    between definite matrices, and flagged missing (then accepted); and an (n, 0, 0) stack with axes but no spatial axis
+    (separates `spatial_dim > 0` from `>= 0`)"""
+    pd = {1: [[3]], 2: [[2, -1], [-1, 2]], 3: [[2, -1, 0], [-1, 2, -1], [0, -1, 2]]}
+    only_ell = (False, False, True, False, False)
+    for lab, M in singular_matrices(rng, tier):
+        side = len(M)
+        axes = ["space"] * side
+        yield {**shape_case(axes, ellipsoid={"shape": [1, side, side], "mats": [M], "missing": None}, cfg=only_ell), "fam": lab}
+        axes2 = axes + ["time"] if rng.random() < 0.5 else axes
+        stack = [pd[side], M, pd[side]]
+        yield {**shape_case(axes2, ellipsoid={"shape": [3, side, side], "mats": stack, "missing": None}, cfg=only_ell), "fam": lab}
+        yield {**shape_case(axes2, ellipsoid={"shape": [3, side, side], "mats": stack, "missing": [False, True, False]}, cfg=only_ell), "fam": lab}
+        if tier == "thorough" or rng.random() < 0.3:
+            yield {**shape_case(axes, ellipsoid={"shape": [3, side, side], "mats": stack, "missing": [True, False, False]}, cfg=only_ell), "fam": lab}
+            yield {**shape_case(axes, ellipsoid={"shape": [1, side, side], "mats": [M], "missing": None},
+                                cfg=(False, False, False, False, False)), "fam": lab}
+    # asymmetric although every eigenvalue is positive (triangular with a positive diagonal) or has a positive real part
+    # (definite + antisymmetric: complex pair): only the symmetry test can reject these
+    asym = [[[4, 0], [-1, 5]], [[2, 1], [0, 2]], [[1, 3], [0, 1]], [[2, 1], [-1, 2]], [[3, -2], [2, 3]], [[5, 1], [2, 5]],
+            [[2, 1, 0], [0, 2, 1], [0, 0, 2]], [[1, 0, 0], [2, 3, 0], [-1, 4, 5]], [[2, -1, 0], [-1, 2, -1], [0, 1, 2]],
+            [[3, 1, 0], [-1, 3, 0], [0, 0, 1]], [[2, 0, 1], [0, 2, 0], [0, 0, 2]], [[4, 1, 1], [1, 4, 1], [1, 2, 4]]]
+    for M in asym:
+        side = len(M)
+        axes = ["space"] * side
+        for T in (M, [list(r) for r in zip(*M)]):
+            yield {**shape_case(axes, ellipsoid={"shape": [1, side, side], "mats": [T], "missing": None}, cfg=only_ell), "fam": "asym-poseig"}
+            yield {**shape_case(axes, ellipsoid={"shape": [3, side, side], "mats": [pd[side], pd[side], T], "missing": None}, cfg=only_ell), "fam": "asym-poseig"}
+            yield {**shape_case(axes, ellipsoid={"shape": [3, side, side], "mats": [pd[side], pd[side], T], "missing": [False, False, True]}, cfg=only_ell),
+                   "fam": "asym-poseig"}
+    # no spatial axis although axes are declared: nothing can be a covariance matrix, whatever its shape
+    for axes in (["time"], ["time", "channel"], []):
+        for n in (0, 1, 2):
+            for side in (0, 1):
+                mats = [[[1] * side for _ in range(side)] for _ in range(n)]
+                for miss in (None, [False] * n):
+                    yield {**shape_case(axes, ellipsoid={"shape": [n, side, side], "mats": mats, "missing": miss}, cfg=only_ell, n=n), "fam": "no-space-axis"}
+
+
+def radii_cases(rng, tier):
+    """finding 7: float radii that are not integers: negative fractions in (-1, 0), -0.0, NaN, beside the integer ones.
+    Scaled by 4 for the model (sphere_rows_scaled); a case holding a NaN is oracle-only (the code accepts NaN: not negative)."""
+    only_sph = (False, True, False, False, False)
+    pool = [0, 1, 2.5, 0.25, "-0.0", -0.5, -0.25, -0.75, -1, "nan", 3]
+    fixed = [[-0.5], [-0.25], [-0.75], ["-0.0"], ["nan"], [0.25], ["nan", 1], ["nan", -0.5], [1, "-0.0", 2.5], [1, -0.25, 2]]
+    for vals in fixed:
+        n = len(vals)
+        yield shape_case([], sphere={"shape": [n], "vals": vals, "float": True, "missing": None}, cfg=only_sph)
+        for k in range(n):  # each entry in turn flagged missing
+            yield shape_case([], sphere={"shape": [n], "vals": vals, "float": True, "missing": [i == k for i in range(n)]}, cfg=only_sph)
+    for _ in range(60 if tier == "quick" else 600):
+        n = rng.randint(1, 4)
+        vals = [rng.choice(pool) if rng.random() < 0.4 else rng.choice([0, 1, 2.5, 0.25, 3]) for _ in range(n)]
+        miss = [rng.random() < 0.4 for _ in range(n)] if rng.random() < 0.5 else None
+        yield shape_case([], sphere={"shape": [n], "vals": vals, "float": True, "missing": miss}, cfg=only_sph if rng.random() < 0.8 else (False, False, False, False, False))
+
+
 def generate(rng: random.Random, tier: str):
     alpha = [0, 1, 2]
     for n in range(5):
@@ -151,6 +401,8 @@ def generate(rng: random.Random, tier: str):
                    "ids": ids, "edges": edges, "axes": [], "sphere": None, "ellipsoid": None, "track": None}
         else:
             yield {"kind": k, "dt": dt, "ids": ids, "edges": edges}
+    yield from singular_cases(rng, tier)
+    yield from radii_cases(rng, tier)
     # shapes + dispatch
     for _ in range(500 if tier == "quick" else 5000):
         n = rng.randint(0, 4)
@@ -198,6 +450,229 @@ def generate(rng: random.Random, tier: str):
         edges = [[i, i + 1] for i in range(n - 1)] if rng.random() < 0.8 else ([[0, 0]] if n else [])
         yield {"kind": "data", "cfg": cfg, "directed": rng.random() < 0.5, "dt": "uint8", "ids": ids, "edges": edges,
                "axes": axes, "sphere": sphere, "ellipsoid": ell, "track": track}
+    yield from gen_dispatch5(rng, tier)
+
+
+# ---------------------------------------------------------------- dispatch with all five flags (DataVal.v)
+# covariance matrices clearly inside / clearly outside the symmetric positive-definite set, by side
+MATS_PD = {1: [[[2]], [[1]], [[5]]], 2: [[[2, 1], [1, 2]], [[1, 0], [0, 3]], [[5, -2], [-2, 1]]],
+           3: [[[2, -1, 0], [-1, 2, -1], [0, -1, 2]], [[1, 0, 0], [0, 2, 0], [0, 0, 3]]]}
+MATS_NOT_PD = {1: [[[-1]], [[-3]]], 2: [[[1, 2], [2, 1]], [[-1, 0], [0, 2]]],
+               3: [[[1, 2, 0], [2, 1, 0], [0, 0, 1]], [[-2, 0, 0], [0, 1, 0], [0, 0, 1]]]}
+MATS_NOT_SYM = {1: [[[-2]]], 2: [[[1, 2], [0, 1]], [[2, 1], [-1, 2]]], 3: [[[1, 0, 1], [0, 1, 0], [0, 0, 1]]]}
+
+
+def mask_for(rng, n, singles, mode):
+    """a missing mask over n positions: None | only positions in `singles` (masking them keeps a valid annotation valid) | anything"""
+    if mode == "none" or n == 0:
+        return None
+    if mode == "singles":
+        return [i in singles and rng.random() < 0.7 for i in range(n)]
+    if mode == "all":
+        return [True] * n
+    return [rng.random() < 0.35 for _ in range(n)]
+
+
+def fill(rng, vals, mask, pool):
+    """adversarial fill values under the missing flags: an id that exists, a fresh one, 0, -1"""
+    if mask is None:
+        return vals
+    return [rng.choice(pool) if i < len(mask) and mask[i] else v for i, v in enumerate(vals)]
+
+
+def track_props_for(rng, ids, edges, which, state):
+    """the tracklet / lineage property of a graph in the requested state: 'valid' (documented partition; masks only on nodes that form a
+    class of their own), 'masked' (documented partition, any mask: a masked node inside a class or next to one usually invalidates it),
+    'perturbed' (merge / split / move), 'unmasked-fill' (valid with a mask, then the mask dropped so that the fill values are read)"""
+    from harness.c13 import perturb, reference_partition
+
+    n = len(ids)
+    every = list(dict.fromkeys(list(ids) + [x for e in edges for x in e]))
+    if which == "tracklet":
+        part = sorted(reference_partition(every, edges), key=lambda cl: min(cl))
+        part = sorted(set(part) | {frozenset([x]) for x in every if not any(x in cl for cl in part)}, key=lambda cl: min(cl))
+    else:
+        part = sorted(weak_components(every, [tuple(e) for e in edges]), key=lambda cl: min(cl))
+    lab = {x: k for k, cl in enumerate(part) for x in cl}
+    vals = [lab[x] + 3 for x in ids]
+    singles = {i for i, x in enumerate(ids) if len(part[lab[x]]) == 1}
+    if state == "perturbed":
+        vals = [v + 3 for v in perturb(rng, list(ids), [cl & set(ids) for cl in part if cl & set(ids)])] if n else []
+    mode = {"valid": rng.choice(["none", "singles", "singles"]), "masked": rng.choice(["any", "any", "all"]),
+            "perturbed": rng.choice(["none", "singles", "any"]), "unmasked-fill": "singles"}[state]
+    mask = mask_for(rng, n, singles, mode)
+    pool = sorted(set(vals)) + [max(vals, default=0) + 1, 0, -1]
+    vals = fill(rng, vals, mask, pool)
+    if state == "unmasked-fill":
+        mask = None
+    return {"vals": vals, "missing": mask}
+
+
+def small_graph(rng):
+    """ids and edges of a small digraph: forests, chains with divisions / merges, isolated nodes, sometimes a cycle"""
+    n = rng.choice([0, 1, 2, 3, 3, 4, 4, 5, 6])
+    big = rng.random() < 0.1
+    pool = [0, 1, 2**32, 2**53 + 1, 2**63 - 1, 2**63, 2**64 - 1, 97] if big else list(range(12))
+    ids = rng.sample(pool, n)
+    edges = []
+    for j in range(1, n):
+        r = rng.random()
+        if r < 0.65:
+            edges.append([ids[rng.randrange(max(0, j - 2), j)], ids[j]])
+        if r > 0.9:
+            edges.append([ids[rng.randrange(0, j)], ids[j]])
+    if n >= 2 and rng.random() < 0.12:
+        a, b = rng.sample(ids, 2)
+        edges.append([b, a])          # may close a cycle
+    edges = [list(e) for e in dict.fromkeys(map(tuple, edges))]
+    return ids, edges, ("uint64" if big else "uint8")
+
+
+def break_graph(rng, ids, edges):
+    """one graph fault (or two, so that the order of the four graph checks shows)"""
+    ids, edges = list(ids), [list(e) for e in edges]
+    for _ in range(rng.choice([1, 1, 2])):
+        k = rng.choice(["dup", "dangling", "self", "repeat", "reverse"])
+        if k == "dup" and ids:
+            ids.append(rng.choice(ids))
+        elif k == "dangling" and ids:
+            edges.append([rng.choice(ids), 11 if 11 not in ids else 10])
+        elif k == "self" and ids:
+            x = rng.choice(ids)
+            edges.append([x, x])
+        elif k == "repeat" and edges:
+            edges.append(list(rng.choice(edges)))
+        elif k == "reverse" and edges:
+            edges.append(list(reversed(rng.choice(edges))))
+    return ids, edges
+
+
+def shape_props(rng, n, nspace, sph_state, ell_state):
+    sphere = ell = None
+    if sph_state == "absent":
+        sphere = "absent"
+    elif sph_state is not None:
+        mask = [rng.random() < 0.4 for _ in range(n)] if rng.random() < 0.6 else None
+        vals = [rng.choice([0, 1, 2, 7]) for _ in range(n)]
+        if mask is not None:                          # adversarial fill: a negative radius under the missing flag
+            vals = [rng.choice([-1, -5]) if m else v for v, m in zip(vals, mask)]
+        if sph_state == "bad" and n:
+            if rng.random() < 0.25:
+                sphere = {"shape": [n, 2], "vals": [v for v in vals for _ in (0, 1)], "float": rng.random() < 0.5, "missing": mask}
+            else:
+                pos = [i for i in range(n) if mask is None or not mask[i]] or [0]
+                if mask is not None and mask[pos[0]]:
+                    mask[pos[0]] = False
+                vals[rng.choice(pos)] = -2
+        if sphere is None:
+            sphere = {"shape": [n], "vals": vals, "float": rng.random() < 0.5, "missing": mask}
+    if ell_state == "absent":
+        ell = "absent"
+    elif ell_state is not None:
+        side = nspace if nspace else rng.choice([1, 2])
+        mask = [rng.random() < 0.4 for _ in range(n)] if rng.random() < 0.6 else None
+        mats = [rng.choice(MATS_PD[side]) for _ in range(n)]
+        if mask is not None:                          # adversarial fill: a matrix that is not positive-definite / not symmetric
+            mats = [rng.choice(MATS_NOT_PD[side] + MATS_NOT_SYM[side]) if m else a for a, m in zip(mats, mask)]
+        shape = [n, side, side]
+        if ell_state == "bad" and n:
+            kind = rng.choice(["notpd", "notsym", "both", "side", "rect"])
+            pos = [i for i in range(n) if mask is None or not mask[i]] or [0]
+            if mask is not None and mask[pos[0]]:
+                mask[pos[0]] = False
+            if kind in ("notpd", "both"):
+                mats[rng.choice(pos)] = rng.choice(MATS_NOT_PD[side])
+            if kind in ("notsym", "both"):
+                mats[rng.choice(pos)] = rng.choice(MATS_NOT_SYM[side])
+            if kind == "side":
+                other = side % 3 + 1
+                mats, shape = [rng.choice(MATS_PD[other]) for _ in range(n)], [n, other, other]
+            if kind == "rect":
+                mats, shape = [[row + [0] for row in a] for a in mats], [n, side, side + 1]
+        ell = {"shape": shape, "mats": mats, "missing": mask}
+    return sphere, ell
+
+
+def gen_dispatch5(rng, tier):
+    """validate_data as a whole: all 2^5 configs x every declaration state of the four properties (undeclared / declared but absent from
+    node_props / stored and valid on the non-missing entries / stored and invalid), real missing masks with adversarial fill values,
+    track_node_props None / {} / one key / both keys, graphs that fail one or two of the graph checks"""
+    states = [None, "absent", "ok", "bad"]
+    tstates = [None, "absent", "valid", "masked", "perturbed", "unmasked-fill"]
+    # systematic block: every config x every combination of declaration states, on a fixed family of graphs
+    combos = [(a, b, tk, ln, tr) for a in states for b in states
+              for tr in ("none", "dict") for tk in (tstates if tr == "dict" else [None]) for ln in (tstates if tr == "dict" else [None])]
+    for ci in range(32):
+        cfg = [bool(ci >> b & 1) for b in range(5)]
+        for a, b, tk, ln, tr in combos:
+            if tier == "quick" and rng.random() > 0.07:
+                continue
+            yield dispatch5_case(rng, cfg, a, b, tk, ln, tr, broken=rng.random() < 0.15)
+    # random block: declared states biased towards stored properties, array lengths that do not match now and then
+    for _ in range(1200 if tier == "quick" else 12000):
+        cfg = [rng.random() < 0.6 for _ in range(5)]
+        tr = rng.choice(["none", "dict", "dict", "dict", "dict"])
+        wt = [1, 1, 6, 4]
+        wtt = [2, 1, 6, 5, 5, 2]
+        c = dispatch5_case(rng, cfg, rng.choices(states, wt)[0], rng.choices(states, wt)[0],
+                           rng.choices(tstates, wtt)[0] if tr == "dict" else None, rng.choices(tstates, wtt)[0] if tr == "dict" else None,
+                           tr, broken=rng.random() < 0.2)
+        if rng.random() < 0.06:
+            misfit(rng, c)
+        yield c
+    # track-focused block: graph / sphere / ellipsoid valid or undeclared, so that the tracklet and lineage branches are reached
+    for _ in range(1500 if tier == "quick" else 15000):
+        cfg = [rng.random() < 0.4, rng.random() < 0.4, rng.random() < 0.4, rng.random() < 0.75, rng.random() < 0.75]
+        wtt = [1, 0, 6, 5, 5, 2]
+        c = dispatch5_case(rng, cfg, rng.choice([None, "ok"]), rng.choice([None, "ok"]), rng.choices(tstates, wtt)[0], rng.choices(tstates, wtt)[0],
+                           "dict", broken=False, nspace_min=1)
+        if rng.random() < 0.1:                       # a broken graph with graph validation off: the track validators see it
+            c["cfg"][0] = False
+            c["ids"], c["edges"] = break_graph(rng, c["ids"], c["edges"])
+            for k in ("tracklet", "lineage"):        # keep the arrays aligned with the (possibly longer) id array
+                tp = c["track"][k]
+                if isinstance(tp, dict):
+                    extra = len(c["ids"]) - len(tp["vals"])
+                    tp["vals"] = tp["vals"] + [rng.choice(tp["vals"] + [99]) for _ in range(extra)]
+                    if tp["missing"] is not None:
+                        tp["missing"] = tp["missing"] + [rng.random() < 0.3 for _ in range(extra)]
+            for k in ("sphere", "ellipsoid"):
+                c[k] = None
+        yield c
+
+
+def dispatch5_case(rng, cfg, sph_state, ell_state, tk_state, ln_state, tr, broken, nspace_min=0):
+    ids, edges, dt = small_graph(rng)
+    if broken:
+        ids, edges = break_graph(rng, ids, edges)
+    n = len(ids)
+    nspace = max(nspace_min, rng.choice([0, 1, 2, 2, 3]))
+    axes = ["space"] * nspace + (["time"] if rng.random() < 0.4 else [])
+    rng.shuffle(axes)
+    sphere, ell = shape_props(rng, n, nspace, sph_state, ell_state)
+    track = None
+    if tr == "dict":
+        track = {"dict": True}
+        for k, st in (("tracklet", tk_state), ("lineage", ln_state)):
+            track[k] = None if st is None else "absent" if st == "absent" else track_props_for(rng, ids, edges, k, st)
+    return {"kind": "data", "d5": True, "cfg": cfg, "directed": rng.random() < 0.7, "dt": dt, "ids": ids, "edges": edges, "axes": axes,
+            "sphere": sphere, "ellipsoid": ell, "track": track, "states": [sph_state, ell_state, tk_state, ln_state, tr, broken]}
+
+
+def misfit(rng, c):
+    """a missing mask / value array whose length differs from the number of nodes (numpy: IndexError; zip: truncation)"""
+    n = len(c["ids"])
+    k = rng.choice(["sphere", "ellipsoid", "tracklet", "lineage"])
+    tgt = c[k] if k in ("sphere", "ellipsoid") else (c["track"] or {}).get(k)
+    if not isinstance(tgt, dict) or n == 0:
+        return
+    if k in ("sphere", "ellipsoid") or rng.random() < 0.5:
+        tgt["missing"] = [rng.random() < 0.3 for _ in range(n + rng.choice([-1, 1, 2]))]
+    else:
+        tgt["vals"] = (tgt["vals"] + [tgt["vals"][0]])[: n + rng.choice([-1, 1])]
+        if rng.random() < 0.5:
+            tgt["missing"] = None
+    c["states"] = c["states"] + ["misfit:" + k]
 
 
 # ---------------------------------------------------------------- implementation
@@ -208,12 +683,16 @@ def build_geff(c):
     node_props = {}
     axes = [Axis(name=f"a{i}", type=t) for i, t in enumerate(c["axes"])] or None
     sphere = ell = None
-    if c["sphere"] is not None:
+    if c["sphere"] == "absent":        # declared in the metadata, no such key in node_props
+        sphere = "r"
+    elif c["sphere"] is not None:
         s = c["sphere"]
-        node_props["r"] = {"values": np.array(s["vals"], dtype="float64" if s["float"] else "int64").reshape(s["shape"]),
+        node_props["r"] = {"values": np.array([radius_value(v) for v in s["vals"]], dtype="float64" if s["float"] else "int64").reshape(s["shape"]),
                            "missing": None if s["missing"] is None else np.array(s["missing"], dtype=bool)}
         sphere = "r"
-    if c["ellipsoid"] is not None:
+    if c["ellipsoid"] == "absent":
+        ell = "cov"
+    elif c["ellipsoid"] is not None:
         e = c["ellipsoid"]
         node_props["cov"] = {"values": np.array(e["mats"], dtype="float64").reshape(e["shape"]),
                              "missing": None if e["missing"] is None else np.array(e["missing"], dtype=bool)}
@@ -222,14 +701,58 @@ def build_geff(c):
     if c["track"] is not None:
         track = {}
         for k in ("tracklet", "lineage"):
-            if c["track"][k] is not None:
-                node_props[k] = {"values": np.array(c["track"][k], dtype="int64"), "missing": None}
+            tp = track_prop(c, k)
+            if tp == "absent":
                 track[k] = k
-        track = track or None
+            elif tp is not None:
+                node_props[k] = {"values": np.array(tp["vals"], dtype="int64"),
+                                 "missing": None if tp["missing"] is None else np.array(tp["missing"], dtype=bool)}
+                track[k] = k
+        if not c["track"].get("dict"):      # {"dict": True}: keep an empty track_node_props dict (same behaviour as None)
+            track = track or None
     md = GeffMetadata(directed=c["directed"], axes=axes, node_props_metadata={}, edge_props_metadata={},
                       sphere=sphere, ellipsoid=ell, track_node_props=track)
     return {"metadata": md, "node_ids": np.array(c["ids"], dtype=c["dt"]),
             "edge_ids": np.array(c["edges"], dtype=c["dt"]).reshape(-1, 2), "node_props": node_props, "edge_props": {}}
+
+
+def track_prop(c, k):
+    """None (key not in track_node_props) | "absent" (declared, not in node_props) | {"vals": [...], "missing": [...] | None}"""
+    tr = c.get("track")
+    if tr is None or tr.get(k) is None:
+        return None
+    v = tr[k]
+    if isinstance(v, list):             # older case format: values without a mask
+        return {"vals": v, "missing": None}
+    return v
+
+
+# which raise statement fired, from the message (DataVal.fault)
+FAULTS = [("Some node ids are not unique", "(FGraph FNonUnique)"), ("Some edges are missing nodes", "(FGraph FMissingNodes)"),
+          ("Self edges found", "(FGraph FSelfEdge)"), ("Repeated edges found", "(FGraph FRepeated)"),
+          ("Sphere radius values must be 1D", "FSphereDim"), ("Sphere radius values must be non-negative", "FSphereNeg"),
+          ("Must define space axes", "FEllNoSpace"), ("must have 3 dimensions", "FEllDim"),
+          ("Spatial dimensions of covariance matrix must be equal", "FEllSquare"), ("spatial dimensions, got", "FEllSide"),
+          ("must be symmetric", "FEllSym"), ("must be positive-definite", "FEllPD"),
+          ("Found invalid tracklets", "FTracklets"), ("Found invalid lineages", "FLineages")]
+FAULT_GROUP = {"(FGraph FNonUnique)": "graph", "(FGraph FMissingNodes)": "graph", "(FGraph FSelfEdge)": "graph", "(FGraph FRepeated)": "graph",
+               "FSphereDim": "sphere", "FSphereNeg": "sphere", "FEllNoSpace": "ellipsoid", "FEllDim": "ellipsoid", "FEllSquare": "ellipsoid",
+               "FEllSide": "ellipsoid", "FEllSym": "ellipsoid", "FEllPD": "ellipsoid", "FTracklets": "tracklet", "FLineages": "lineage"}
+GRAPH_PROBLEM = {"(FGraph FNonUnique)": "nonunique", "(FGraph FMissingNodes)": "missing-nodes", "(FGraph FSelfEdge)": "self",
+                 "(FGraph FRepeated)": "repeated"}
+
+
+def fault_of(ex):
+    if isinstance(ex, KeyError):
+        return "FKey"
+    if isinstance(ex, IndexError):
+        return "FIndex"
+    if isinstance(ex, ValueError):
+        text = " ".join(str(a) for a in ex.args)
+        for pat, f in FAULTS:
+            if pat in text:
+                return f
+    return "FUnknown"
 
 
 def run_impl(c):
@@ -255,12 +778,12 @@ def run_impl(c):
             g, s, e, l, t = c["cfg"]
             cfg = ValidationConfig(graph=g, sphere=s, ellipsoid=e, lineage=l, tracklet=t)
             mem = build_geff(c)
-            via = via_store(mem, cfg)
+            via, via_fault = via_store5(mem, cfg)
             try:
                 validate_data(mem, cfg)
-                return ["ok", "", via]
+                return ["ok", "", via, "", via_fault]
             except Exception as ex:
-                return ["err", exn_name(ex), via]
+                return ["err", exn_name(ex), via, fault_of(ex), via_fault]
     except Exception as ex:
         return ["err", exn_name(ex)]
     raise ValueError(k)
@@ -286,6 +809,25 @@ def via_store(mem, cfg):
         return exn_name(ex)
 
 
+def via_store5(mem, cfg):
+    """via_store with the raise statement that fired: (None, None) | ("ok", "") | (exception class, fault)"""
+    from zarr.storage import MemoryStore
+
+    from geff.core_io import read_to_memory, write_arrays
+
+    st = MemoryStore()
+    try:
+        write_arrays(st, mem["node_ids"], mem["node_props"], mem["edge_ids"], mem["edge_props"], mem["metadata"], structure_validation=False)
+        read_to_memory(st)
+    except Exception:
+        return None, None
+    try:
+        read_to_memory(st, data_validation=cfg)
+        return "ok", ""
+    except Exception as ex:
+        return exn_name(ex), fault_of(ex)
+
+
 # ---------------------------------------------------------------- Coq terms
 def cedges(es):
     return clist(es, lambda e: f"({cz(e[0])}, {cz(e[1])})")
@@ -295,7 +837,29 @@ def cmat(m):
     return clist(m, lambda r: clist(r, cz))
 
 
+def shapes_oracle_only(c):
+    """not representable in the exact-integer model: a NaN radius (accepted by the code: not negative), and exactly singular
+    PSD covariance matrices outside the float-exact families (verdict = sign of a rounding error; open finding)"""
+    if c["kind"] != "data":
+        return False
+    if isinstance(c["sphere"], dict) and any(isinstance(v, str) and v == "nan" for v in c["sphere"]["vals"]):
+        return True
+    e = c["ellipsoid"]
+    return isinstance(e, dict) and len(e["shape"]) == 3 and e["shape"][1] == e["shape"][2] and any(ambiguous(M) for M in e["mats"])
+
+
+def sphere_rows_scaled(s, rows):
+    """float radii are multiples of 1/4 (the generator's only fractions): the model gets 4 * radius, -0.0 as 0"""
+    if not s.get("float"):
+        return rows
+    out = [Fraction(radius_value(v)) * RADIUS_SCALE for v in rows]
+    assert all(x.denominator == 1 for x in out)
+    return [int(x) for x in out]
+
+
 def coq_case(c, o):
+    if shapes_oracle_only(c):
+        return None
     k = c["kind"]
     if k == "unique":
         inp = f"IUnique {clist(c['ids'], cz)}"
@@ -306,9 +870,8 @@ def coq_case(c, o):
     elif k == "repeated":
         inp = f"IRepeated {cedges(c['edges'])}"
     else:
-        if c["cfg"][3] or c["cfg"][4]:
-            if c["track"] is not None:
-                return None  # lineage / tracklet dispatch is modelled in C13/C14; oracle-only here
+        if not old_model_case(c):
+            return coq_case5(c, o)       # the whole of validate_data (DataVal.v): every config, every declaration state
         cfg = f"{{| c_graph := {cbool(c['cfg'][0])}; c_sphere := {cbool(c['cfg'][1])}; c_ellipsoid := {cbool(c['cfg'][2])} |}}"
         sph = "None"
         if c["sphere"] is not None:
@@ -318,6 +881,7 @@ def coq_case(c, o):
                 rows = s["vals"]
             else:  # 2-D radii: only the rank matters; give the first column
                 rows = s["vals"][::2]
+            rows = sphere_rows_scaled(s, rows)
             sph = f"(Some ({cnat(len(s['shape']))}, {clist(rows, cz)}, {copt(s['missing'], lambda m: clist(m, cbool))}))"
         ell = "None"
         if c["ellipsoid"] is not None:
@@ -343,6 +907,64 @@ def coq_case(c, o):
     return f"({inp}, {ob})"
 
 
+def old_model_case(c):
+    """One in three of the cases that the three-flag model (GraphVal.validate_data, IData) can express -- no lineage / tracklet flag
+    with a declared track property, nothing declared-but-absent, masks of the right length -- keeps going to that model, so that it
+    stays tied to the code; every other data case goes to the five-flag model (IData5), with the raise statement compared."""
+    import json
+    import zlib
+
+    if c.get("d5"):
+        return False
+    if (c["cfg"][3] or c["cfg"][4]) and c["track"] is not None:
+        return False
+    n = len(c["ids"])
+    for k in ("sphere", "ellipsoid"):
+        if c[k] == "absent":
+            return False
+        if c[k] is not None and c[k]["missing"] is not None and len(c[k]["missing"]) != n:
+            return False
+    return zlib.crc32(json.dumps(c, sort_keys=True, default=str).encode()) % 3 == 0
+
+
+def cdecl(x, f):
+    return "Undeclared" if x is None else "Absent" if x == "absent" else f"(Present {f(x)})"
+
+
+def csphere(s):
+    rows = s["vals"] if len(s["shape"]) == 1 else s["vals"][::2]      # 2-D radii: only the rank matters; give the first column
+    rows = sphere_rows_scaled(s, rows)
+    return f"({cnat(len(s['shape']))}, {clist(rows, cz)}, {copt(s['missing'], lambda m: clist(m, cbool))})"
+
+
+def cellipsoid(e):
+    sh = e["shape"]
+    nd = len(sh)
+    r = sh[1] if nd >= 2 else 0
+    cc = sh[2] if nd >= 3 else 0
+    mats = e["mats"] if nd == 3 else [[] for _ in e["mats"]]
+    return f"({cnat(nd)}, {cnat(r)}, {cnat(cc)}, {clist(mats, cmat)}, {copt(e['missing'], lambda m: clist(m, cbool))})"
+
+
+def ctprop(tp):
+    return f"{{| tp_values := {clist(tp['vals'], cz)}; tp_missing := {copt(tp['missing'], lambda m: clist(m, cbool))} |}}"
+
+
+def coq_case5(c, o):
+    g, s, e, l, t = c["cfg"]
+    cfg = (f"{{| c5_graph := {cbool(g)}; c5_sphere := {cbool(s)}; c5_ellipsoid := {cbool(e)}; "
+           f"c5_lineage := {cbool(l)}; c5_tracklet := {cbool(t)} |}}")
+    if c["track"] is None:
+        track = "None"
+    else:
+        track = f"(Some ({cdecl(track_prop(c, 'tracklet'), ctprop)}, {cdecl(track_prop(c, 'lineage'), ctprop)}))"
+    d = (f"{{| e_directed := {cbool(c['directed'])}; e_ids := {clist(c['ids'], cz)}; e_edges := {cedges(c['edges'])}; "
+         f"e_spatial := {cnat(sum(1 for a in c['axes'] if a == 'space'))}; e_sphere := {cdecl(c['sphere'], csphere)}; "
+         f"e_ellipsoid := {cdecl(c['ellipsoid'], cellipsoid)}; e_track := {track} |}}")
+    ob = "OData5 (Ok tt) None" if o[0] == "ok" else f"OData5 (Err {o[1]}) (Some {o[3] if len(o) > 3 else 'FUnknown'})"
+    return f"(IData5 {cfg} {d}, {ob})"
+
+
 # ---------------------------------------------------------------- oracle (from the property text)
 def graph_problems(c):
     ids, edges, directed = c["ids"], [tuple(e) for e in c["edges"]], c.get("directed", True)
@@ -365,7 +987,8 @@ def sphere_valid(s):
     if len(s["shape"]) != 1:
         return False
     miss = s["missing"] or [False] * n
-    return all(v >= 0 for v, m in zip(s["vals"], miss) if not m)
+    # "no negative entry": NaN and -0.0 are not negative (radius_value: see the radii block of the generator)
+    return all(not (radius_value(v) < 0) for v, m in zip(s["vals"], miss) if not m)
 
 
 def ellipsoid_valid(e, axes):
@@ -375,13 +998,141 @@ def ellipsoid_valid(e, axes):
     sh = e["shape"]
     if len(sh) != 3 or sh[1] != sh[2] or sh[1] != nspace:
         return False
+    return ellipsoid_fault(e, axes) is None
+
+
+def ellipsoid_fault(e, axes, o=None):
+    """None (valid) | "ellipsoid" (some non-missing matrix is asymmetric, has a direction with x^T M x < 0, or is exactly
+    singular with a float-exact zero eigenvalue; or the shape is wrong) | "ellipsoid-singular-rounding" (the only
+    offenders are exactly singular PSD matrices outside the float-exact families: open finding)"""
+    nspace = sum(1 for a in axes if a == "space")
+    sh = e["shape"]
+    if nspace == 0 or len(sh) != 3 or sh[1] != sh[2] or sh[1] != nspace:
+        return "ellipsoid"
     miss = e["missing"] or [False] * sh[0]
+    assert len(miss) == sh[0] == len(e["mats"])  # the generator never makes a mask of another length (numpy: IndexError)
+    rounding = False
     for M, m in zip(e["mats"], miss):
         if m:
             continue
-        if not is_sym(M) or not all(x > 0 for x in minors(M)):
-            return False
-    return True
+        if not is_sym(M):
+            return "ellipsoid"
+        d = definiteness(M)
+        if d == "neg" or (d == "singular-psd" and float_exact_singular(M)):
+            if o is not None and d == "singular-psd":  # `o` (the observation) only feeds the statistics of the evidence file
+                ORACLE_STATS["singular_psd_float_exact_cases"] += 1
+            return "ellipsoid"
+        if d == "singular-psd":
+            rounding = True
+    if rounding and o is not None:
+        ORACLE_STATS["singular_psd_rounding_cases"] += 1
+        ORACLE_STATS["singular_psd_rounding_accepted"] += o[0] == "ok"
+    return "ellipsoid-singular-rounding" if rounding else None
+
+
+def weak_components(nodes, edges):
+    """weakly connected components by breadth-first search over an undirected adjacency map (independent of the union-find of
+    harness.tracks_gen.components and of networkx)"""
+    adj = {x: set() for x in nodes}
+    for a, b in edges:
+        adj.setdefault(a, set()).add(b)
+        adj.setdefault(b, set()).add(a)
+    seen, comps = set(), []
+    for x in adj:
+        if x in seen:
+            continue
+        comp, todo = {x}, [x]
+        while todo:
+            y = todo.pop()
+            for z in adj[y]:
+                if z not in comp:
+                    comp.add(z)
+                    todo.append(z)
+        seen |= comp
+        comps.append(frozenset(comp))
+    return set(comps)
+
+
+def track_verdict(c, which):
+    """'accept' / 'reject' of the tracklet or lineage annotation, from the documented definitions (docs/tracking.md) on the nodes whose id
+    is NOT flagged missing -- a node whose id is missing belongs to no tracklet / lineage but stays in the graph with its edges --
+    or 'undefined' where the documents say nothing (declared but not stored, array lengths that do not match, duplicate node ids)."""
+    from harness.c13 import is_maximal_unbranched_path, reference_partition
+
+    tp = track_prop(c, which)
+    ids, n = c["ids"], len(c["ids"])
+    if tp == "absent" or len(tp["vals"]) != n or (tp["missing"] is not None and len(tp["missing"]) != n) or len(set(ids)) != n:
+        return "undefined"
+    edges = [tuple(x) for x in c["edges"]]
+    every = list(dict.fromkeys(list(ids) + [x for ed in edges for x in ed]))     # the graph: listed nodes and every id an edge mentions
+    miss = tp["missing"] or [False] * n
+    classes = {}
+    for x, v, m in zip(ids, tp["vals"], miss):
+        if not m:
+            classes.setdefault(v, []).append(x)
+    if which == "lineage":
+        comps = weak_components(every, edges)
+        return "accept" if all(frozenset(ns) in comps for ns in classes.values()) else "reject"
+    ref = reference_partition(every, edges)
+    bad = [tid for tid, ns in classes.items() if frozenset(ns) not in ref]
+    bad2 = [tid for tid, ns in classes.items() if not is_maximal_unbranched_path(ns, every, edges)]
+    if bad != bad2:
+        raise AssertionError(f"harness: the two readings of the documented tracklet definition disagree on {c}: {bad} vs {bad2}")
+    return "reject" if bad else "accept"
+
+
+def data_expectation(c):
+    """{validator: 'accept' | 'reject' | 'undefined'} for the validators that are ENABLED and whose property is DECLARED"""
+    g, s, e, l, t = c["cfg"]
+    n = len(c["ids"])
+    exp = {}
+    if g:
+        exp["graph"] = "reject" if graph_problems(c) else "accept"
+    for flag, key, valid in ((s, "sphere", lambda: sphere_valid(c["sphere"])), (e, "ellipsoid", lambda: ellipsoid_valid(c["ellipsoid"], c["axes"]))):
+        if flag and c[key] is not None:
+            if c[key] == "absent" or (c[key]["missing"] is not None and len(c[key]["missing"]) != n):
+                exp[key] = "undefined"
+            else:
+                exp[key] = "accept" if valid() else "reject"
+    if c["track"] is not None:
+        for flag, key in ((t, "tracklet"), (l, "lineage")):
+            if flag and track_prop(c, key) is not None:
+                exp[key] = track_verdict(c, key)
+    return exp
+
+
+def oracle_data(c, o):
+    exp = data_expectation(c)
+    rejecting = [k for k, v in exp.items() if v == "reject"]
+    undefined = [k for k, v in exp.items() if v == "undefined"]
+    tags = {"kind": "data", "directed": c["directed"]}
+    ell_kind = ellipsoid_fault(c["ellipsoid"], c["axes"], o) if exp.get("ellipsoid") == "reject" else None   # also feeds ORACLE_STATS
+    if o[0] == "ok" and rejecting:
+        first = ell_kind if rejecting[0] == "ellipsoid" and ell_kind else rejecting[0]
+        return Failure(c, o, f"validate_data accepts although {rejecting} must reject" + (f" ({graph_problems(c)})" if "graph" in rejecting else ""),
+                       dict(tags, why="accepts:" + first))
+    if len(o) > 2 and o[2] is not None and (o[2] != ("ok" if o[0] == "ok" else o[1]) or (len(o) > 4 and o[4] != o[3])):
+        return Failure(c, o, f"read_to_memory(store, data_validation=cfg) gives {o[2]} {o[4] if len(o) > 4 else ''} but validate_data on the same "
+                       f"graph gives {o[0] if o[0] == 'ok' else o[1]} {o[3] if len(o) > 3 else ''}", dict(tags, why="wiring-read"))
+    if o[0] == "err":
+        fault = o[3] if len(o) > 3 else "FUnknown"
+        group = FAULT_GROUP.get(fault)
+        if not exp:
+            return Failure(c, o, f"no validator is enabled with a declared property, but validate_data raised {o[1]} ({fault})",
+                           dict(tags, why="rejects-valid"))
+        if group is None:
+            if not undefined:
+                return Failure(c, o, f"validate_data raised {o[1]} ({fault})", dict(tags, why="exception-class"))
+            return None
+        if o[1] != "ValueError":
+            return Failure(c, o, f"validate_data raised {o[1]}", dict(tags, why="exception-class"))
+        if group not in exp:
+            return Failure(c, o, f"the {group} validator raised although it is not enabled / its property is not declared", dict(tags, why="disabled-raises"))
+        if exp[group] == "accept":
+            return Failure(c, o, f"the {group} validator rejects valid data ({fault})", dict(tags, why="rejects-valid:" + group))
+        if group == "graph" and GRAPH_PROBLEM[fault] not in graph_problems(c):
+            return Failure(c, o, f"graph validation reports {fault} but the problems are {graph_problems(c)}", dict(tags, why="wrong-message"))
+    return None
 
 
 def oracle(c, o):
@@ -407,28 +1158,7 @@ def oracle(c, o):
         if o[1] != (not exp) or sorted(map(tuple, o[2])) != exp or len(o[2]) != len(exp):
             return Failure(c, o, f"repeated edges: expected ({not exp}, {exp})", {"kind": k, "why": "verdict-or-offenders"})
     elif k == "data":
-        g, s, e, l, t = c["cfg"]
-        must_fail = []
-        if g and graph_problems(c):
-            must_fail.append("graph:" + ",".join(graph_problems(c)))
-        if s and c["sphere"] is not None and not sphere_valid(c["sphere"]):
-            must_fail.append("sphere")
-        if e and c["ellipsoid"] is not None and not ellipsoid_valid(c["ellipsoid"], c["axes"]):
-            must_fail.append("ellipsoid")
-        tr = c["track"] or {}
-        track_may_fail = (l and tr.get("lineage") is not None) or (t and tr.get("tracklet") is not None)
-        if o[0] == "ok" and must_fail:
-            return Failure(c, o, f"validate_data accepts although {must_fail}", {"kind": "data", "why": "accepts:" + must_fail[0].split(":")[0],
-                                                                                  "directed": c["directed"]})
-        if len(o) > 2 and o[2] is not None and o[2] != ("ok" if o[0] == "ok" else o[1]):
-            return Failure(c, o, f"read_to_memory(store, data_validation=cfg) gives {o[2]} but validate_data on the same graph gives "
-                           f"{o[0] if o[0] == 'ok' else o[1]}", {"kind": "data", "why": "wiring-read"})
-        if o[0] == "err":
-            if o[1] != "ValueError":
-                return Failure(c, o, f"validate_data raised {o[1]}", {"kind": "data", "why": "exception-class"})
-            if not must_fail and not track_may_fail:
-                what = "valid data" if any((g, s, e)) else "no validator enabled/declared"
-                return Failure(c, o, f"validate_data rejects {what}", {"kind": "data", "why": "rejects-valid"})
+        return oracle_data(c, o)
     return None
 
 
@@ -436,13 +1166,45 @@ def nontrivial(c, o):
     return bool(c.get("ids") or c.get("edges"))
 
 
+_STATS: dict = {}
+
+
+def _count_data(c, o):
+    def bump(k):
+        _STATS[k] = _STATS.get(k, 0) + 1
+    bump("data_cases")
+    bump("data_to_five_flag_model" if not old_model_case(c) else "data_to_three_flag_model")
+    if c["cfg"][3] or c["cfg"][4]:
+        bump("data_with_track_flag")
+        if c["track"] is not None and (track_prop(c, "tracklet") is not None or track_prop(c, "lineage") is not None):
+            bump("data_with_track_flag_and_declared_track_property")
+    for k in ("tracklet", "lineage"):
+        tp = track_prop(c, k)
+        if isinstance(tp, dict) and tp["missing"] is not None and any(tp["missing"]):
+            bump(f"{k}_property_with_real_mask")
+    bump("data_outcome_" + (o[3] if o[0] == "err" and len(o) > 3 else o[0]))
+    if len(o) > 2 and o[2] is not None:
+        bump("data_also_through_read_to_memory")
+
+
+def extra_coverage():
+    return {"dispatch_block": dict(sorted(_STATS.items()))}
+
+
 def describe(c, o):
     k = c["kind"]
     if k == "data":
+        _count_data(c, o)
         return (f"data:cfg={''.join('1' if b else '0' for b in c['cfg'])}:sph={'y' if c['sphere'] else 'n'}:"
-                f"ell={'y' if c['ellipsoid'] else 'n'}:{o[0]}")
+                f"ell={'y' if c['ellipsoid'] else 'n'}:trk={'n' if c['track'] is None else 'y'}:{o[0]}")
     return f"{k}:{c['dt']}:n={len(c.get('edges', c.get('ids', [])))}"
 
 
 def search(rng, budget):
     yield from generate(rng, "thorough")
+
+
+def extra_coverage():
+    """ellipsoid oracle: how many distinct matrices were classified (characteristic polynomial), how often the grid search
+    found an explicit x with x^T M x <= 0 for a rejected one, and what the implementation did on the exactly singular ones"""
+    return {"ellipsoid_oracle": dict(ORACLE_STATS)}
